@@ -10,6 +10,25 @@ var propDefs = map[string]*PropDef{
 		},
 		Assume: []string{"ReplaceTag/ReplaceFilter/RegisterTag are not called between compilation steps (registry is fixed)"},
 	},
+	"C05": {
+		ID: "C05", Kinds: []string{"frame@exec", "lock", "guard"}, Funcs: "all", Floor: 110,
+		Unmech: []string{
+			"schedules are not enumerated: the proved statements are the sufficient condition (i) execution writes only memory that is fresh in the call or per-execution and (ii) every access to the template cache happens with the set's mutex held, lookup and fill in one critical section; data-race freedom and 'same result as alone' follow with the Go memory model (DRF-SC), which is assumed",
+		},
+		Assume: []string{
+			"sync.Mutex Lock/Unlock are modelled by a ghost 'held' flag per mutex address; functions are entered with no lock held",
+			"library objects read concurrently (*regexp.Regexp, math/rand top-level functions, log.Logger) are goroutine-safe by their documentation",
+			"TemplateSet.Debug is read without the lock (documented by upstream as the user's duty)",
+		},
+	},
+	"C20": {
+		ID: "C20", Kinds: []string{"lock", "guard"}, Funcs: "all", Floor: 20,
+		Unmech: []string{
+			"linearisation: each cache operation is atomic because it is one critical section (proved), so every concurrent history is equivalent to a sequential history of the proved sequential specifications; 'one compile per name until cleaned' follows",
+			"set isolation (no package-level cache) follows from the frame: no function writes package-level state after init (C04 global-write obligations)",
+		},
+		Assume: []string{"loaders are deterministic functions of (base, name): LoaderAbs is an uninterpreted function", "FromFile's frame (writes only the freeze flag and fresh objects) is an assumed contract"},
+	},
 	"C04": {
 		ID: "C04", Kinds: []string{"frame"}, Funcs: "exec", Floor: 100,
 		Unmech: []string{
